@@ -784,15 +784,18 @@ func ruleUTF8Class(c *Ctx) {
 			default:
 				continue
 			}
-			and, ok := eq.X.(*ssa.BinOp)
-			if !ok || and.Op != token.AND {
+			// b & m OP v, or the byte compared as it is (b >= 0xc0): the mask is then all ones
+			var idx *ssa.Index
+			m, ok1 := int64(0xff), true
+			if and, ok := eq.X.(*ssa.BinOp); ok && and.Op == token.AND {
+				idx, _ = and.X.(*ssa.Index)
+				m, ok1 = constInt(and.Y)
+			} else {
+				idx, _ = eq.X.(*ssa.Index)
+			}
+			if idx == nil || idx.X != ssa.Value(s) {
 				continue
 			}
-			idx, ok := and.X.(*ssa.Index)
-			if !ok || idx.X != ssa.Value(s) {
-				continue
-			}
-			m, ok1 := constInt(and.Y)
 			v, ok2 := constInt(eq.Y)
 			if !ok1 || !ok2 {
 				continue
